@@ -255,6 +255,8 @@ def rich_history(rng: random.Random, version: str | None, length: int) -> list[l
             steps.append(["config", "metric", rng.random() < 0.5])
         elif roll < 0.93:
             steps.append(["rx", f"{rng.choice([1, 2, 255])};255;3;{rng.choice([0, 0, 1])};{rng.choice([6, 6, 1, 3])};\n"])
+        elif roll < 0.935:
+            steps.append(["clock", rng.choice([1, 61, 301, 601, 3601, 7201, 86401, 90000])])  # time passes
         elif roll < 0.94:
             steps.append(["forget", rng.choice([1, 2, 7])])  # the application removes a node from the registry
         elif roll < 0.95:
@@ -293,3 +295,15 @@ def dictionary_type_sweep(version: str | None, candidates: list[str], value_type
             steps.append(["rx", f"{node};{child};1;0;{vt};{payload}\n"])
             steps.append(["rx", f"{node};{child};2;0;{vt};\n"])
     return steps
+
+
+def with_clock_jumps(steps: list[list], seconds_list: list[float]) -> list[list]:
+    """The same history with a jump of every clock before each received line / send (cycling through seconds_list)."""
+    out: list[list] = []
+    index = 0
+    for op in steps:
+        if op[0] in ("rx", "tx") and out:
+            out.append(["clock", seconds_list[index % len(seconds_list)]])
+            index += 1
+        out.append(op)
+    return out
